@@ -63,6 +63,11 @@ def scripts_for(pv, thorough, rng):
 def run_login(run, rng, pv, order, threshold, terminal, server_id, auth,
               user_handler, ygg):
     from minecraft.exceptions import IgnorePacket
+    # 15% of the disconnect cases: the server refuses at once (see handler);
+    # none of the optional steps then takes place
+    early_reset = terminal[0] != 'success' and rng.random() < 0.15
+    if early_reset:
+        order = ()
     codec = codec_for(pv)
     state = {'plugin_responses': [], 'errors': [], 'chat': [], 'obs': None}
     token = bytes(rng.getrandbits(8) for _ in range(rng.choice((4, 16))))
@@ -112,7 +117,6 @@ def run_login(run, rng, pv, order, threshold, terminal, server_id, auth,
     # (two allowed versions, a status query answered with `pv`), so that the
     # login state machine is also exercised with whatever the status phase
     # left behind in the connection object.
-    early_reset = terminal[0] != 'success' and rng.random() < 0.15
     server_closed = threading.Event()
     negotiated = rng.random() < 0.33 and not early_reset
     other_pv = 757 if pv != 757 else 340
